@@ -132,7 +132,7 @@ structure WfFfs (zv : Bytes) (v3 : Bool) (attrs rev rsv : Nat) (blocks : List Bl
   hhdr : fvHdrLen blocks < 65536
   hnb : files = [] ∨ blocks ≠ []
   hext : ∀ e, ext = some e → e.fvName.length = 16 ∧ ehoOf blocks ext < 65536 ∧ 20 + e.data.length < 4294967296 ∧
-      ehoOf blocks ext + 20 < endFiles (preLen blocks ext) files + free
+      ehoOf blocks ext + 20 ≤ endFiles (preLen blocks ext) files + free
   hlen8 : (endFiles (preLen blocks ext) files + free) % 8 = 0
   hlenlt : endFiles (preLen blocks ext) files + free < 0x4000000000000000
   hlen64 : 64 ≤ endFiles (preLen blocks ext) files + free
